@@ -11,7 +11,10 @@ exposes a suspension point between `is_connected` and `pre_disconnect` should on
 `AsyncRun` executes one schedule on a fresh server; the accesses each task makes to the manager /
 transport / handler are logged (not suspended), and the log — not the release order — yields the
 model schedule: one `Sched.step true` per logged `is_connected`, `send`, handler entry,
-`manager.disconnect`.  `run_async_schedules(ctx)` is called by harness/props/c04.py.
+`manager.disconnect`.  A CONNECT under observation whose handler refuses is the model's task kind
+`refuse` (handler decides, `is_connected`[+`pre_disconnect`], send of the refusal, `manager.disconnect`);
+under always_connect the CONNECT packet it sends BEFORE the handler is not a model step.
+`run_async_schedules(ctx)` is called by harness/props/c04.py.
 """
 import asyncio
 import itertools
@@ -262,7 +265,8 @@ class AsyncRun:
     # ------------------------------------------------------------------ observation
     def finish(self):
         w, mgr, cfg = self.w, self.mgr, self.cfg
-        kinds = [MODEL_KIND[c] for c in cfg['causes']] + (['conn'] if cfg.get('conn') else [])
+        conn_kind = 'refuse' if self.conn_outcome in ('false', 'refuse') else 'conn'
+        kinds = [MODEL_KIND[c] for c in cfg['causes']] + ([conn_kind] if cfg.get('conn') else [])
         n = len(kinds)
         todo = {}
         for i, k in enumerate(kinds):
@@ -276,6 +280,8 @@ class AsyncRun:
         snap, visited = {}, {i: [] for i in range(n)}
         gate_atomic = True
         open_check = None
+        decided = set()        # refusing CONNECTs whose handler has answered
+        marks = {}             # ns -> kinds of the tasks that called pre_disconnect for the session under test
         for e in self.events:
             i, what, ns, res, sid = e
             if i is None or i >= n:
@@ -294,7 +300,16 @@ class AsyncRun:
             if what in ('mark', 'handler', 'cleanup') and foreign(ns, sid):
                 continue
             if what == 'mark':
+                if ns in NS_NAMES:
+                    marks.setdefault(NS_NAMES.index(ns), []).append(kinds[i])
                 continue
+            if kinds[i] == 'refuse':
+                if what == 'chandler':
+                    decided.add(i)
+                elif what == 'send' and i not in decided:
+                    # always_connect: the CONNECT packet goes out before the connect handler runs; the model's
+                    # refusing CONNECT starts at the handler
+                    continue
             if what == 'check':
                 if res is True and not foreign(ns, sid):
                     open_check = i
@@ -410,7 +425,7 @@ class AsyncRun:
             'causes': list(cfg['causes']), 'mode': cfg['mode'], 'others': bool(cfg.get('others')),
             'conn_info': conn_info,
             'conn': bool(cfg.get('conn')), 'side_tasks': list(self.side), 'sched': list(self.sched), 'kinds': kinds,
-            'todo': [todo[i] for i in range(n)], 'msched': msched, 'mpcs': mpcs,
+            'todo': [todo[i] for i in range(n)], 'msched': msched, 'mpcs': mpcs, 'marks': marks,
             'calls': dict(sorted(calls.items())), 'raised': sorted(raised, key=str), 'swallowed': swallowed,
             'unfinished': unfinished, 'residue': residue, 'connected': connected,
             'rooms': {k: list(v or []) for k, v in rooms.items()},
@@ -475,7 +490,7 @@ def model_line(obs):
 def targets(obs):
     out = {}
     for k, t in zip(obs['kinds'], obs['todo']):
-        if k == 'conn':
+        if k in ('conn', 'refuse'):
             continue
         for n in t:
             out.setdefault(n, set()).add(k)
@@ -651,12 +666,23 @@ def correspondence(obs, m):
         diffs.append('residue: impl %r, model %r' % (obs['residue'], mres))
     if not m['allDone']:
         diffs.append('the model is not at quiescence after the mapped schedule: pcs %r' % (m['pcs'],))
+    mm = {n: v for n, v in m.get('marks', []) if v}
+    if mm != {n: v for n, v in (obs.get('marks') or {}).items() if v}:
+        diffs.append('tasks that passed the gate (pre_disconnect): impl %r, model %r' % (obs.get('marks'), mm))
+    ci = obs.get('conn_info') or {}
+    if 'refuse' in obs['kinds'] and 'lost' not in obs['causes']:
+        # refusals on the wire (a lost transport may not show them: judged by the oracle)
+        wire = len([d for ns, d in ci['refusal_disconnects'] if ns == '/']) if ci['always_connect'] else \
+            len([d for t, d in ci['answers'] if t == 4])
+        mr = dict((n, k) for n, k in m.get('refusals', [])).get(0, 0)
+        if wire != mr:
+            diffs.append('refusals sent for the session: impl %d, model %d' % (wire, mr))
     if not obs['gate_atomic']:
         diffs.append('another access was made between a successful is_connected and the pre_disconnect that follows it: '
                      'the gate is not atomic on the implementation')
     cur = {}
     for j, (i, after) in enumerate(zip(obs['msched'], m['trace'])):
-        before = cur.get(i, 'chandler' if obs['kinds'][i] == 'conn' else 'check')
+        before = cur.get(i, 'chandler' if obs['kinds'][i] in ('conn', 'refuse') else 'check')
         want = PC_OF_EVENT.get(obs['mpcs'][j])
         if obs['kinds'][i] == 'conn' and want == 'send':
             want = 'csend'
@@ -695,20 +721,18 @@ def run_async_schedules(ctx):
     def judge(cfg, obs, m):
         stats['runs'] += 1
         fails = oracle(obs)
-        refusal = (obs.get('conn_info') or {}).get('outcome') in ('false', 'refuse')
-        # (the model has no refusing CONNECT task yet: those schedules are judged by the oracle alone)
-        diffs = [] if (refusal or m is None) else correspondence(obs, m)
-        if m is None:
-            m = {'calls': [], 'raised': [], 'contained': 0, 'residue': [], 'pcs': []}
         if fails and known_loss_before_handler(obs, fails):
+            # (known finding: the connect handler never runs, the model's task would stay at `chandler`;
+            #  this region is judged by the oracle alone)
             stats['known_loss_before_handler'] = stats.get('known_loss_before_handler', 0) + 1
             if 'known_loss_sample' not in stats:
                 stats['known_loss_sample'] = {'cfg': cfg, 'sched': obs['sched'], 'oracle': fails}
             return
+        diffs = correspondence(obs, m)
         rep = {'kernel': 'sched_async', 'cfg': cfg, 'sched': obs['sched'], 'model_sched': obs['msched'],
                'observed': {k: obs[k] for k in ('calls', 'raised', 'swallowed', 'residue', 'connected', 'rooms',
                                                 'disc_packets', 'gate_atomic', 'unfinished', 'side', 'new_session')},
-               'model': {k: m[k] for k in ('calls', 'raised', 'contained', 'residue', 'pcs')},
+               'model': {k: m.get(k) for k in ('calls', 'raised', 'contained', 'residue', 'pcs', 'marks', 'refusals')},
                'oracle': fails, 'correspondence': diffs}
         if fails:
             ctx.violation('oracle', 'asyncio schedule violates the lifecycle property (handler exactly once, no trace, concurrent frames answered as the state requires): %s' % fails, rep)
@@ -729,10 +753,7 @@ def run_async_schedules(ctx):
                 obs_all = list(explore(cfg))
             else:
                 obs_all = [random_schedule(cfg, ctx.rng) for _ in range(sample)]
-            if cfg.get('conn') in ('false', 'refuse'):
-                ans = [None] * len(obs_all)
-            else:
-                ans = C.batch('sched', [model_line(o) for o in obs_all])
+            ans = C.batch('sched', [model_line(o) for o in obs_all])
             key = '+'.join(cfg['causes']) + '/' + cfg['mode'] + ('/shared-ns' if cfg['others'] else '') + \
                 ('/conn-suspended' if cfg.get('conn') else '') + \
                 ('-' + str(cfg['conn']) if cfg.get('conn') in ('false', 'refuse') else '') + \
@@ -796,6 +817,9 @@ def run_async_schedules(ctx):
                   'while the CONNECT packet is suspended in the send, before the connect handler is invoked: %s; e.g. %s schedule %s'
                   % (stats['known_loss_before_handler'], smp['oracle'], smp['cfg'], smp['sched']))
     cov['sched_refused_connect_schedules'] = stats['refusal_runs']
+    cov['sched_refused_connect_rule'] = ('every refused-CONNECT schedule runs on the model too (task kind `refuse`): handler calls, '
+                                         'gate passes, refusals on the wire, residue, quiescence, per-step pcs compared; except the '
+                                         'known-finding region ' + KNOWN_LOSS_BEFORE_HANDLER + ' (oracle only)')
     cov['sched_evaluations'] = stats['runs']
     cov['sched_exhaustive'] = True
     cov['sched_exhaustive_scope'] = (
